@@ -97,7 +97,7 @@ void vp_harness(void) {
 #ifdef VP_LONG_ENOUGH
 	{ uint8_t z[16] = {0}; (void)spec_dest(in_type, z, 0, &need); }   /* payload length the type requires */
 	__CPROVER_assume((unsigned)di + need <= (unsigned)in_len + 1);
-	if (in_type == MSG_BM_MULTIPLE) __CPROVER_assume((unsigned)di + 2 + m[di + 1] / 8 <= (unsigned)in_len + 1);
+	if (in_type == MSG_BM_MULTIPLE) __CPROVER_assume((unsigned)di + 2 + ((unsigned)m[di + 1] + 7) / 8 <= (unsigned)in_len + 1);
 	want = spec_dest(in_type, m, di, &need);
 #endif
 	bidib_lowlevel_debug_mode = in_debug;
